@@ -224,12 +224,19 @@ def main(argv=None):
                                              "tier": args.tier, "seed": seed})
             violations.append(f"VIOLATION property={prop} replay={path}")
             lines.append(f"  bounded contract `{fl['check']}` fails on the real code: {fl['detail'][:200]}")
+    grouped = {}
     for r in P["refuted"]:
         ident = "obligation:" + r["id"]
         k = match_known(known, prop, ident)
         if k:
             known_hits.append((ident, k))
             continue
+        gk = (r["kind"], r.get("func"))
+        if gk in grouped:
+            grouped[gk].setdefault("also_refuted", []).append(r["id"])
+            continue
+        grouped[gk] = r
+    for r in grouped.values():
         nrep += 1
         confirmed = None
         if hasattr(mod, "replay_refuted"):
@@ -242,7 +249,8 @@ def main(argv=None):
                    "function": r.get("func"), "line": r.get("line"), "verifier": r.get("backend"),
                    "verifier_output": {"status": r["status"], "model": r.get("model"), "detail": r.get("detail")},
                    "was_proved_on_baseline": r["id"] in baseline,
-                   "replay_on_real_code": confirmed, "bounded_failures_same_run": sorted(bounded_fail_checks)}
+                   "replay_on_real_code": confirmed, "bounded_failures_same_run": sorted(bounded_fail_checks),
+                   "same_defect_other_obligations": r.get("also_refuted", [])[:50]}
         path = write_replay(prop, nrep, payload)
         suffix = "" if (confirmed and confirmed.get("failed")) or bounded_fail_checks else " no-failing-input-found"
         violations.append(f"VIOLATION property={prop} replay={path}{suffix}")
